@@ -270,6 +270,22 @@ func startDnsServer(r *Run, addr string) (*sdns.ServerDnsListener, chan net.Conn
 	return ln, ch, nil
 }
 
+// serverConnFor returns the accepted server-side connection that belongs to the client's session
+// (a lost answer to the version request makes the client retry and the server open an orphan session).
+func serverConnFor(accepted chan net.Conn, dc *sdns.ClientDnsConnection) net.Conn {
+	var found net.Conn
+	for {
+		select {
+		case c := <-accepted:
+			if id, ok := sdns.SimServerUserId(c); ok && id == dc.SimUserId() {
+				found = c
+			}
+		default:
+			return found
+		}
+	}
+}
+
 func dialDnsClient(r *Run, addr, sourceIP string) (*sdns.ClientDnsConnection, error) {
 	r.Net.SourceIP = sourceIP
 	comm, err := sdns.NewNetConnectionClientCommunicator(&sdns.ClientConfig{Servers: sdns.AddressList{sdns.MustResolveNetworkAddress("udp", addr, "53")}})
